@@ -37,10 +37,12 @@ def polDots (l : List Nat) : String := if l.isEmpty then "-" else String.interca
 
 def polTask (t : Task) : String := s!"{t.quantity}:{polDots t.nodes}:{polDots t.done}"
 
-def polOut (o : Out) : String :=
+def polOutBody (o : Out) : String :=
   let dels := if o.dels.isEmpty then "-" else String.ofList (o.dels.map fun m => match m with | .dflt => 'D' | .redundant => 'R')
   let tasks := if o.tasks.isEmpty then "-" else String.intercalate ";" (o.tasks.map polTask)
-  s!"=> ok del={dels} shards={if o.shardDrop then 1 else 0} heads={showNats o.heads} tasks={tasks}"
+  s!"del={dels} shards={if o.shardDrop then 1 else 0} heads={showNats o.heads} tasks={tasks}"
+
+def polOut (o : Out) : String := "=> ok " ++ polOutBody o
 
 structure PolPassIn where
   env : Env
@@ -77,6 +79,74 @@ def polParsePass (o : OpLine) : Option PolPassIn := do
     some { env := env, legacy := legacy, obj := { typ := typ, ec := ec, shards := shards },
            plc := { net := net, lists := lists, rep := rep, ecRules := ecr } }
 
+def polBits (s : String) : Option (List Bool) := s.toList.mapM fun c => polBit (String.singleton c)
+
+def polDotList (s : String) : Option (List Nat) :=
+  if s == "-" then some [] else (s.splitOn ".").mapM String.toNat?
+
+/-- op `task`: the real `HandleTask` on one scripted task -/
+def polParseTask (o : OpLine) : Option String := do
+  let q ← o.nat? "q"
+  let nodes ← (o.get? "nodes").bind polDotList
+  let me ← o.nat? "me"
+  let repl ← (o.get? "repl").bind polBits
+  let cut ← o.nat? "cut"
+  let cs ← (o.get? "cs").bind polBit
+  let stored ← (o.get? "stored").bind polBit
+  let obj ← (o.get? "obj").bind polBit
+  if repl.length > 200 || me > 200 || q > 4294967295 || cut > repl.length then none
+  else if nodes.any (fun n => n = 0 || (n > repl.length && n ≠ me)) then none
+  else
+    let env : Env := { me := me, inNetmap := true, flag := fun _ => false, ans := fun _ => .err,
+                       repl := fun n => (repl[n - 1]?).getD false, readable := stored,
+                       cutAt := if cut = 0 then none else some cut, cutStored := cs }
+    let done := handleTaskC env obj q nodes
+    let stored := (done.filter (· != me)).foldl (fun h n => addNode n h) []
+    some s!"=> ok done={polDots done} stored={showNats stored}"
+
+def polPairsShow (l : List (Nat × Nat)) : String :=
+  if l.isEmpty then "-" else String.intercalate "," (l.map fun p => s!"{p.1}.{p.2}")
+
+def polRecTask (t : RecTask) : String := s!"{t.part}:{polDots t.nodes}:{polDots t.done}"
+
+/-- op `recreate`: the pass over a local EC part with a scripted state of the sibling parts -/
+def polParseRecreate (o : OpLine) : Option String := do
+  let rep ← o.nats? "rep"
+  let ecr ← (o.get? "ecr").bind polPairs
+  let lists ← (o.get? "lists").bind polLists
+  let ri ← o.nat? "ri"
+  let lp ← o.nat? "lp"
+  let me ← o.nat? "me"
+  let size ← o.nat? "size"
+  let parts ← (o.get? "parts").map fun s => (s.splitOn ".").map fun t => t.toList.mapM polAns
+  let parts ← parts.mapM id
+  let rfail ← o.nats? "rfail"
+  let ans ← (o.get? "ans").bind fun s => s.toList.mapM polAns
+  let repl ← (o.get? "repl").bind polBits
+  if repl.length ≠ ans.length || ans.length > 200 || me = 0 || me > ans.length || size = 0 || size > 4096 then none
+  else if lists.any (fun l => l.any fun n => n = 0 || n > ans.length) then none
+  else if lists.length ≠ rep.length + ecr.length then none
+  else
+    let plc : Placement := { lists := lists, rep := rep, ecRules := ecr }
+    match ecr[ri]? with
+    | none => none
+    | some (d, par) =>
+      let nodes := ecNodes plc ri
+      let total := d + par
+      -- a well-formed script: the rule splits (1..64 data, 1..64 parity parts), the local node is in the list of
+      -- the rule and its nodes are distinct, one answer row per part with one answer per node of the list
+      if d = 0 || d > 64 || par = 0 || par > 64 || lp ≥ total || !nodes.contains me || nodes.eraseDups.length ≠ nodes.length then none
+      else if parts.length ≠ total || parts.any (fun r => r.length ≠ nodes.length) then none
+      else
+        let env : Env := { me := me, inNetmap := true, flag := fun _ => false,
+                           ans := fun n => (ans[n - 1]?).getD .err, repl := fun n => (repl[n - 1]?).getD false }
+        let pe : PartsEnv := { stat := fun p n => ((parts[p]?).bind fun r => r[nodes.idxOf n]?).getD .err,
+                               rfail := fun p => rfail.contains p }
+        let r := recreate env pe nodes total par lp
+        let own := ecPartByRule env (partSeq nodes lp total)
+        let recs := if r.2.isEmpty then "-" else String.intercalate ";" (r.2.map polRecTask)
+        some s!"=> ok pheads={polPairsShow r.1.heads} ranges={polPairsShow r.1.ranges} rec={recs} {polOutBody own}"
+
 def sortDedup (l : List Nat) : List Nat := l.foldl (fun h n => addNode n h) []
 
 def policerStep (s : Cluster) (o : OpLine) : Cluster × String :=
@@ -95,11 +165,13 @@ def policerStep (s : Cluster) (o : OpLine) : Cluster × String :=
         (cl, s!"=> ok hold={showNats cl.hold}")
     | _, _, _, _ => (s, "=> bad-op")
   | "round" =>
-    match o.nats? "order", o.nats? "down" with
-    | some order, some down =>
-      let r := round s order down
+    match o.nats? "order", o.nats? "down", o.nats? "maint" with
+    | some order, some down, some maint =>
+      let r := round s order down maint
       (r.1, s!"=> ok hold={showNats r.1.hold} tasks={r.2.1} drops={showNats r.2.2}")
-    | _, _ => (s, "=> bad-op")
+    | _, _, _ => (s, "=> bad-op")
+  | "task" => (s, (polParseTask o).getD "=> bad-op")
+  | "recreate" => (s, (polParseRecreate o).getD "=> bad-op")
   | _ => (s, "=> bad-op")
 
 end NeoFS.Driver
